@@ -206,6 +206,9 @@ func c13Setup() *c13PKI {
 		p.z[k] = zparse(p.issuer[k].DER)
 		p.responder[k] = kit.MakeCert(kit.CertSpec{Name: "OCSP Responder " + k, Key: "p256_9", Issuer: p.issuer[k], Serial: 72, OCSPSigner: true})
 		p.responderZ[k] = zparse(p.responder[k].DER)
+		// the same responder key certified under a subject whose string type is not the one this library would choose
+		p.responder[k+"/utf8"] = kit.MakeCert(kit.CertSpec{Name: "OCSP Responder U " + k, Key: "p256_9", Issuer: p.issuer[k], Serial: 75, OCSPSigner: true, UTF8Subject: true})
+		p.responderZ[k+"/utf8"] = zparse(p.responder[k+"/utf8"].DER)
 		p.rogue[k] = kit.MakeCert(kit.CertSpec{Name: "OCSP Responder " + k, Key: "p256_10", Issuer: p.otherIssuer, Serial: 73, OCSPSigner: true})
 		p.rogueZ[k] = zparse(p.rogue[k].DER)
 	}
@@ -448,7 +451,12 @@ func c13Run(t *testing.T, sc *c13Scenario, p *c13PKI, o *Outcome) *Failure {
 	responderZ, signer := issuerZ, ocspSignerKey(map[string]string{"rsa": "rsa5", "p256": "p256_7", "p384": "p384_2", "p521": "p521_0"}[ik])
 	signerCert := issuer
 	if sc.Delegated {
-		responderZ, signer, signerCert = p.responderZ[ik], ocspSignerKey("p256_9"), p.responder[ik]
+		rk := ik
+		if sc.Seed>>9&1 == 1 {
+			rk = ik + "/utf8"
+			o.count("probe.responder_subject_utf8string", 1)
+		}
+		responderZ, signer, signerCert = p.responderZ[rk], ocspSignerKey("p256_9"), p.responder[rk]
 		tmpl.Certificate = responderZ
 	}
 	if sc.SigAlg != "" {
